@@ -490,6 +490,38 @@ Definition plain_tok_at (p : policy) (cn : cancel) (bd : body) (sc : list beh) (
   let o := round_trip p cn bd (init_state bd) sc t0 in
   mkAuthK (o_res o) (o_trace o) [] [] (o_time o).
 
+(* auth.Client.Do with a warm Bearer cache (a token cached under the scope key the challenge
+   leads to, none under the request's own key), token request spelled out: first send; on a
+   Bearer challenge rewind and re-send with the cached token; if that is refused (any 401) fetch
+   a fresh token -- its failure ends the call --, rewind, send a third time.  A Basic challenge
+   is answered as with an empty cache. *)
+Record authw_out := mkAuthW {
+  aw_res : result; aw_first : list event; aw_second : list event; aw_token : list event;
+  aw_third : list event; aw_time : Z
+}.
+
+Definition auth_do_tokw_at (p : policy) (cn : cancel) (bd : body) (sc : list beh)
+           (tb : body) (tsc : list beh) (t0 : Z) : authw_out :=
+  let o1 := round_trip p cn bd (init_state bd) sc t0 in
+  if challenged (o_res o1) then
+    match rewind bd (o_st o1) with
+    | RwOk st2 =>
+      let o2 := round_trip p cn bd st2 (o_script o1) (o_time o1) in
+      if bearer_challenged (o_res o1) && unauthorized (o_res o2) then
+        let k := fetch_token p cn tb tsc (o_time o2) in
+        if k_ok k then
+          match rewind bd (o_st o2) with
+          | RwOk st3 =>
+            let o3 := round_trip p cn bd st3 (o_script o2) (k_time k) in
+            mkAuthW (o_res o3) (o_trace o1) (o_trace o2) (k_trace k) (o_trace o3) (o_time o3)
+          | rw => mkAuthW (rewind_error rw) (o_trace o1) (o_trace o2) (k_trace k) [] (k_time k)
+          end
+        else mkAuthW (k_res k) (o_trace o1) (o_trace o2) (k_trace k) [] (k_time k)
+      else mkAuthW (o_res o2) (o_trace o1) (o_trace o2) [] [] (o_time o2)
+    | rw => mkAuthW (rewind_error rw) (o_trace o1) [] [] [] (o_time o1)
+    end
+  else mkAuthW (o_res o1) (o_trace o1) [] [] [] (o_time o1).
+
 Definition authk_attempts (a : authk_out) : list (Z * str) :=
   attempts (ak_first a) ++ attempts (ak_second a).
 
